@@ -18,7 +18,7 @@ mvars == <<vars, now, pc>>
 
 T == "t"
 ChanOfK(k) == cl[k].c
-Info(id) == [key |-> id, crc |-> id, len |-> 1, ts |-> id, def |-> 0, acked |-> FALSE]
+Info(id) == [key |-> id, crc |-> id, len |-> 1, ts |-> id, pnow |-> 0, def |-> 0, acked |-> FALSE]
 
 MInit == /\ minfo = <<>> /\ tq = {} /\ owed = <<>> /\ copying = <<>>
          /\ chan = [c \in Chans |-> [NewChan(T) EXCEPT !.st = "live"]]
